@@ -1,5 +1,6 @@
 Require Import ZArith List. Require Extraction. Require Import ExtrOcamlBasic.
-Require Import IW.Lib.CInt IW.UT.Conv IW.JSON.Val IW.JSON.Utf8 IW.JSON.Text IW.Gen.Facts.
+Require Import IW.Lib.CInt IW.UT.Conv IW.JSON.Val IW.JSON.Utf8 IW.JSON.Text IW.JSON.TextChan IW.Gen.Facts.
 Extraction "m.ml" Z.add Z.mul Z.sub Z.div_eucl Z.compare Z.of_nat Z.to_nat Z.opp
   from_json as_json jbl_as_json unescape write_json_string write_int encode_char codepoint_valid iterate strtoll0 strtod_end
-  parse_key jval_eqb.
+  parse_key jval_eqb
+  as_json_chunks jbl_as_json_chunks chunks_bytes chan_xstr chan_fstream chan_count cstr0.
